@@ -27,18 +27,57 @@ def scan(text):
     in_dir = False        # inside a backslash-continued preprocessor directive
     valid = True
     notes = set()
+    in_dir_comment = False    # inside a C comment that was opened on a directive line and not closed there
+
+    def open_comment_at_end(t, already_open):
+        """Does directive text `t` end inside a /* */ comment?  (double-quoted strings are skipped)"""
+        k, m = 0, len(t)
+        opened = already_open
+        while k < m:
+            if opened:
+                e = t.find("*/", k)
+                if e < 0:
+                    return True
+                opened = False
+                k = e + 2
+            elif t[k] == '"':
+                e = t.find('"', k + 1)
+                k = m if e < 0 else e + 1
+            elif t.startswith("/*", k):
+                opened = True
+                k += 2
+            else:
+                k += 1
+        return opened
+
     for no, raw in enumerate(lines, 1):
+        if in_dir_comment:
+            # the preprocessor blanks the comment: its lines hold nothing; what follows the closing `*/` still belongs
+            # to the directive
+            e = raw.find("*/")
+            if e < 0:
+                continue
+            rest = raw[e + 2:]
+            if rest.strip():
+                counted.append(no)
+                directive.add(no)
+            in_dir_comment = open_comment_at_end(rest, False)
+            in_dir = rest.rstrip().endswith("\\") and not in_dir_comment
+            notes.add("c-comment-from-directive-line-to-later-line")
+            continue
         if in_dir:
             if raw.strip():
                 counted.append(no)
                 directive.add(no)
-            in_dir = raw.rstrip().endswith("\\")
+            in_dir_comment = open_comment_at_end(raw, False)
+            in_dir = raw.rstrip().endswith("\\") and not in_dir_comment
             continue
         stripped = raw.strip()
         if in_char is None and stripped.startswith("#"):
             counted.append(no)
             directive.add(no)
-            in_dir = raw.rstrip().endswith("\\")
+            in_dir_comment = open_comment_at_end(raw, False)
+            in_dir = raw.rstrip().endswith("\\") and not in_dir_comment
             notes.add("directive")
             continue
         i = 0
